@@ -11,6 +11,7 @@ handwritten  files produced without armi (block/flow YAML): valid values, invali
 renames      every documented old name (+ synthetic expiring ones) in a file lands on the new setting
 copies       modified()/duplicate()/pickle leave the original untouched (also for list/dict values)
 each_setting one group of single-setting documents per setting of the App (deterministic values, all styles)
+xs_table     complete presence table of geometry / xsFileLocation / fluxFileLocation of a crossSectionControl entry
 """
 import copy
 import datetime
@@ -506,14 +507,41 @@ def _num_ok_int():
     return st.one_of(st.integers(-3, 30), st.sampled_from([3.7, "3", 0, True, 2.0]))
 
 
-def _xs_one_valid():
-    paths = st.lists(_text(), max_size=3)
-    base = st.one_of(
-        st.fixed_dictionaries({"geometry": st.sampled_from(XS_GEOMS)}),
-        st.fixed_dictionaries({"xsFileLocation": paths}),
-        st.fixed_dictionaries({"geometry": st.sampled_from(XS_GEOMS), "xsFileLocation": paths}),
-        st.fixed_dictionaries({"geometry": st.sampled_from(XS_GEOMS), "fluxFileLocation": _text()}),
-    )
+# Validity table of one crossSectionControl entry whose fields are individually well-typed, from the documented rules
+# (XSModelingOptions docstring + validate()): values that are None count as not given; an entry with nothing given is
+# dropped; otherwise `geometry` or `xsFileLocation` is required, and `fluxFileLocation` "must be provided with" a
+# `geometry`.  `blockRepresentation` and the other options do not change the verdict at assignment/read time.
+_XS_PRESENCE = ("absent", "none", "value")
+XS_COMBOS = [(g, x, f) for g in _XS_PRESENCE for x in _XS_PRESENCE for f in _XS_PRESENCE]
+
+
+def _xs_table(d):
+    """'valid' | 'invalid' | 'dropped' for one option dict (independent of the armi validators)."""
+    given = {k: v for k, v in d.items() if k != "xsID" and v is not None}
+    if not given:
+        return "dropped"
+    if "geometry" in given:
+        return "valid"
+    if "xsFileLocation" in given and "fluxFileLocation" not in given:
+        return "valid"
+    return "invalid"
+
+
+XS_COMBOS_VALID = [c for c in XS_COMBOS if c[0] == "value" or (c[1] == "value" and c[2] != "value")]
+XS_COMBOS_INVALID = [c for c in XS_COMBOS if c not in XS_COMBOS_VALID]  # incl. the all-empty ones (dropped unless another option is given)
+
+
+def _xs_fill(combo, geom, paths, flux):
+    d = {}
+    for key, state, val in (("geometry", combo[0], geom), ("xsFileLocation", combo[1], paths), ("fluxFileLocation", combo[2], flux)):
+        if state == "none":
+            d[key] = None
+        elif state == "value":
+            d[key] = val
+    return d
+
+
+def _xs_options():
     opt = st.fixed_dictionaries({}, optional={
         "blockRepresentation": st.sampled_from(XS_BLOCKREP), "driverID": _text(), "criticalBuckling": st.booleans(),
         "nuclideReactionDriver": _text(), "validBlockTypes": st.lists(_text(), max_size=3),
@@ -525,31 +553,53 @@ def _xs_one_valid():
         "ductHeterogeneous": st.booleans(), "traceIsotopeThreshold": _num_ok_float(), "xsTempIsotope": _text(),
         "xsID": _text(),
     })
-    nones = st.lists(st.sampled_from(["driverID", "validBlockTypes", "xsPriority", "criticalBuckling"]), max_size=2)
-    return st.tuples(base, opt, nones).map(lambda t: dict(list({k: None for k in t[2]}.items()) + list(t[1].items()) + list(t[0].items())))
+    nones = st.lists(st.sampled_from(["driverID", "validBlockTypes", "xsPriority", "criticalBuckling", "blockRepresentation"]), max_size=2)
+    return st.tuples(opt, nones).map(lambda t: dict(list({k: None for k in t[1]}.items()) + list(t[0].items())))
+
+
+def _xs_entry(combos):
+    """One option dict built on a presence combination of geometry / xsFileLocation / fluxFileLocation."""
+    return st.tuples(st.sampled_from(combos), st.sampled_from(XS_GEOMS), st.lists(_text(), max_size=3), _text(),
+                     st.one_of(st.just({}), _xs_options(), _xs_options())).map(lambda t: dict(t[4], **_xs_fill(t[0], t[1], t[2], t[3])))
+
+
+def _xs_one_valid():
+    return _xs_entry(XS_COMBOS_VALID)
+
+
+def _xs_one_table_invalid():
+    """Every field well-typed, the combination not admitted (an entry that would be dropped gets one harmless option)."""
+    return _xs_entry(XS_COMBOS_INVALID).map(lambda d: d if _xs_table(d) == "invalid" else dict(d, driverID="AA"))
 
 
 def _xs_break(d):
-    """Strategy turning one well-formed option dict into a near miss."""
+    """Strategy turning one well-formed option dict into a near miss of the field types / options."""
     return st.sampled_from([
-        dict({k: v for k, v in d.items() if k not in ("geometry", "xsFileLocation", "fluxFileLocation")}, driverID="x"),
         dict(d, geometry="3D"), dict(d, unknownOption=1), dict(d, criticalBuckling="yes"), dict(d, validBlockTypes="fuel"),
         dict(d, numInternalRings="abc"), dict(d, blockRepresentation="Mean"), dict(d, driverID=5), dict(d, mergeIntoClad=[1]),
-        dict(d, geometry=0), "0D", [d], 5,
+        dict(d, geometry=0), dict(d, xsFileLocation="ISOAA"), dict(d, fluxFileLocation=["f"]), "0D", [d], 5,
     ])
+
+
+def _xs_whole(d):
+    """Expectation for a whole crossSectionControl value made of table entries."""
+    verdicts = [_xs_table(o) if isinstance(o, dict) else "dropped" for o in d.values()]
+    return (d, "invalid" if "invalid" in verdicts else "valid")
 
 
 def _xs_values(valid_only=False):
     ids = st.sampled_from(XS_IDS)
-    good = st.dictionaries(ids, st.one_of(_xs_one_valid(), _xs_one_valid(), st.just({}), st.none()), max_size=4).map(lambda d: (d, "valid"))
+    good = st.dictionaries(ids, st.one_of(_xs_one_valid(), _xs_one_valid(), st.just({}), st.none()), max_size=4).map(_xs_whole)
     badkey = st.tuples(st.dictionaries(ids, _xs_one_valid(), max_size=2), st.sampled_from(["AAA", "", "abc"]), _xs_one_valid()).map(
         lambda t: (dict(t[0], **{t[1]: t[2]}), "invalid"))
     badopt = st.tuples(st.dictionaries(ids, _xs_one_valid(), max_size=2), ids, _xs_one_valid().flatmap(_xs_break)).map(
         lambda t: (dict(t[0], **{t[1]: t[2]}), "invalid"))
+    badcombo = st.tuples(st.dictionaries(ids, _xs_one_valid(), max_size=2), ids, _xs_one_table_invalid()).map(
+        lambda t: _xs_whole(dict(t[0], **{t[1]: t[2]})))
     wrong = st.sampled_from([(None, "invalid"), (5, "invalid"), ([], "invalid"), ("AA", "invalid"), ([["AA", {"geometry": "0D"}]], "invalid")])
     if valid_only:
         return good
-    return st.one_of(good, good, good, badkey, badopt, wrong)
+    return st.one_of(good, good, good, good, badkey, badopt, badcombo, badcombo, wrong)
 
 
 def _cycle_valid():
@@ -969,7 +1019,8 @@ def documents_strategy(tier):
     cat = catalogue()
     names = sorted(cat)
     changes = st.tuples(st.lists(any_change(cat), max_size=10), st.lists(any_change(cat, container_names(cat), True), max_size=3),
-                        st.lists(any_change(cat, nested_names(cat), True), max_size=3)).map(lambda t: t[0] + t[1] + t[2])
+                        st.lists(any_change(cat, nested_names(cat), True), max_size=3),
+                        st.lists(any_change(cat, nested_names(cat)), max_size=1)).map(lambda t: t[0] + t[1] + t[2] + t[3])
     return st.fixed_dictionaries({
         "changes": changes,
         "style": st.integers(0, 8).map(lambda k: STYLES[k % 3]),
@@ -1152,6 +1203,7 @@ def handwritten_execute(case):
         _assign_checked(out, cs, ref, ch, "handwritten")
     before = snapshot(cs)
     mapping = {}
+    construction = {}
     for ent in case["entries"]:
         if ent.get("skip"):
             out.label("excluded:" + ent["skip"])
@@ -1160,6 +1212,8 @@ def handwritten_execute(case):
         if key in mapping:
             continue
         mapping[key] = dec(ent["v"], cat[ent["name"]]["default"] if "name" in ent else None)
+        if "name" in ent and cat[ent["name"]]["spec"]["t"] in ("xs", "tight", "cycles") and ent.get("e") in ("valid", "invalid"):
+            construction[key] = ent["e"]  # nested values are plain JSON: YAML does not change them
         if "old" in ent:
             out.label("entry:old-name")
     if case["withVersions"] and "versions" not in mapping:
@@ -1174,13 +1228,24 @@ def handwritten_execute(case):
     unknown = set()
     today = datetime.date.today().isoformat()
     oldmap = {o: n for n in cat for o, d in cat[n]["oldNames"] if d is None or d > today}
-    for key, pv in seen.items():
+    for filekey, pv in seen.items():
+        key = filekey
         if key not in cat and key in oldmap:
             key = oldmap[key]  # documented: accepted under the old name, lands on the new one
         if key not in cat:
             unknown.add(key)
             continue
         ok, exp = _try_schema(ref[key], pv)
+        e = construction.get(filekey)
+        if e == "invalid":
+            out.check(not ok, "handwritten/nearmiss-admitted-by-schema",
+                      lambda: "setting %s: file value %r violates the documented schema rules but schema returned %r" % (key, pv, exp))
+            if ok:
+                # judge the read by the documented rule, not by the (too permissive) schema
+                ok, exp = False, "documented rule"
+        elif e == "valid":
+            out.check(ok, "handwritten/wellformed-value-rejected-by-schema",
+                      lambda: "setting %s: file value %r is well-formed for the documented schema but schema raised %r" % (key, pv, exp))
         if not ok:
             first_bad = (key, pv, exp)
             break
@@ -1629,6 +1694,56 @@ def each_execute(case):
 
 
 # --------------------------------------------------------------------------------------------------
+# part: xs_table (complete presence table of geometry / xsFileLocation / fluxFileLocation, every route)
+
+
+def xs_table_enum(tier):
+    cases = []
+    for i, combo in enumerate(XS_COMBOS):
+        for blockrep in (False, True):
+            for extra in (False, True):
+                cases.append({"combo": list(combo), "blockRepresentation": blockrep, "extra": extra, "geometry": XS_GEOMS[i % len(XS_GEOMS)],
+                              "alone": (i + blockrep + extra) % 2 == 0})
+    return cases
+
+
+def xs_table_execute(case):
+    out = Out()
+    d = _xs_fill(tuple(case["combo"]), case["geometry"], ["ISOCA", "a b.isotxs"], "rzmflxCA")
+    if case["blockRepresentation"]:
+        d["blockRepresentation"] = "Median"
+    if case["extra"]:
+        d["driverID"] = "AA"
+    verdict = _xs_table(d)
+    out.label("entry:" + verdict, "combo:g=%s,x=%s,f=%s" % tuple(case["combo"]))
+    value = {"CA": d} if case["alone"] else {"AA": {"geometry": "0D"}, "CA": d, "XA": {"xsFileLocation": ["ISOXA"]}}
+    e = "invalid" if verdict == "invalid" else "valid"
+    prev = {"name": "crossSectionControl", "v": {"ZA": {"geometry": "1D slab", "meshSubdivisionsPerCm": 2}}, "e": "valid"}
+    change = {"name": "crossSectionControl", "v": value, "e": e}
+    out.nontrivial_count = 0
+    out.evals = 0
+    # assignment over a previous non-default value
+    cs, ref = _fresh(), dict(_fresh().items())
+    _assign_checked(out, cs, ref, prev, "xs_table")
+    _assign_checked(out, cs, ref, change, "xs_table")
+    out.evals += 1
+    subs = []
+    # read from a hand-written text/file over the previous value
+    for via, flow in (("string", False), ("file", True)):
+        subs.append(handwritten_execute({"pre": [prev], "entries": [{"name": "nCycles", "v": 3, "e": "valid"}, change], "flow": flow, "via": via,
+                                         "withVersions": False, "answer": None}))
+    # admitted values survive the armi writer
+    if e == "valid":
+        subs.append(documents_execute(_fix_doc({"changes": [change], "style": "short", "via": "file", "userSet": []})))
+        subs.append(documents_execute(_fix_doc({"changes": [prev, change], "style": "full", "via": "string", "userSet": []})))
+    for sub in subs:
+        out.violations.extend(sub.violations)
+        out.evals += 1
+    out.nontrivial_count = out.evals if verdict != "dropped" else 0
+    return out
+
+
+# --------------------------------------------------------------------------------------------------
 
 PARTS = [
     Part("defaults", defaults_execute, enumerate=defaults_enum, exhaustive=True, procs={"quick": 1, "thorough": 1},
@@ -1641,6 +1756,13 @@ PARTS = [
               "style (stream or file), the first also in full and the second in medium style, with the complete `documents` oracle; "
               "non-trivial = every written document",
          bound=lambda t: "all settings x <= %d values x {short, medium, full}" % (8 if t == "quick" else 40)),
+    Part("xs_table", xs_table_execute, enumerate=xs_table_enum, exhaustive=True, procs={"quick": 2, "thorough": 2},
+         rule="complete table: every presence combination (absent / None / given) of geometry, xsFileLocation and fluxFileLocation in one "
+              "crossSectionControl entry x blockRepresentation given or not x another option given or not, alone or among valid entries; "
+              "expectation from the documented rules (nothing given: dropped; geometry or xsFileLocation required; fluxFileLocation needs "
+              "geometry); each is assigned over a previous value, read from a hand-written string and file over a previous value and, if "
+              "admitted, written by armi in short and full style and read back; non-trivial = entry not dropped",
+         bound=lambda t: "3^3 presence combinations x 2 x 2 = 108 entries x 3-5 routes"),
     Part("assign", assign_execute, strategy=assign_strategy, budget={"quick": 3000, "thorough": 80000}, procs={"quick": 4, "thorough": 16},
          rule="Hypothesis: histories of 1-10 assignments on one Settings object; the setting is drawn uniformly (nested and container "
               "settings boosted), the value from the setting's introspected schema (Coerce/Range/In/Any/list; hand-written generators "
